@@ -115,6 +115,13 @@ type scenRun struct {
 	conns    map[string]net.Conn
 	answered map[string]bool
 	probes   int
+	mch      *muc.Channel // the room the application joined (mucjoin)
+}
+
+func (sr *scenRun) room() *muc.Channel {
+	sr.mu.Lock()
+	defer sr.mu.Unlock()
+	return sr.mch
 }
 
 // acceptLoop accepts every incoming stream of one listener: in, in2, in3, …
@@ -289,7 +296,33 @@ var localCalls = map[string]func(ctx context.Context, sr *scenRun, arg string){
 		_ = sr.fx.rs.S.Close()
 	},
 	"mucjoin": func(ctx context.Context, sr *scenRun, _ string) {
-		_, _ = sr.p.mc.Join(ctx, room, sr.fx.rs.S)
+		ch, _ := sr.p.mc.Join(ctx, room, sr.fx.rs.S)
+		sr.mu.Lock()
+		sr.mch = ch
+		sr.mu.Unlock()
+	},
+	// calls on a room the application has joined (or tried to): join again under another
+	// nickname (arg) or under the same one (no arg), leave, and the state readers an
+	// application polls while it waits
+	"mucrenick": func(ctx context.Context, sr *scenRun, arg string) {
+		if ch := sr.room(); ch != nil {
+			if arg == "" {
+				_ = ch.Join(ctx)
+			} else {
+				_ = ch.Join(ctx, muc.Nick(arg))
+			}
+		}
+	},
+	"mucleave": func(ctx context.Context, sr *scenRun, _ string) {
+		if ch := sr.room(); ch != nil {
+			_ = ch.Leave(ctx, "")
+		}
+	},
+	"mucstate": func(ctx context.Context, sr *scenRun, _ string) {
+		if ch := sr.room(); ch != nil {
+			_ = ch.Me()
+			_ = ch.Joined()
+		}
 	},
 	"hist": func(ctx context.Context, sr *scenRun, arg string) {
 		it := sr.p.hh.Fetch(ctx, history.Query{ID: "hq1"}, remote, sr.fx.rs.S)
@@ -369,7 +402,12 @@ func unhexS(s string) (string, error) {
 
 // runScenario executes the steps; the outcome is ok, a recovered panic, or a stall (with the
 // step that did not complete).
+// lastObserved: what the "observe:<call>" steps of the scenario that ran last have seen
+// (scenarios run one at a time in a process).
+var lastObserved []string
+
 func runScenario(steps []string) outcome {
+	lastObserved = nil
 	m, p := newMuxParts()
 	fx, err := newFixture(m)
 	if err != nil {
@@ -479,12 +517,38 @@ func runScenario(steps []string) outcome {
 					return abort(outcome{stalled: true, where: "local call " + f[1] + " did not return"})
 				}
 			}
+		case "observe":
+			// has the local call returned (it gets a moment: the hand-over wakes its goroutine)?
+			if len(f) != 2 {
+				return outcome{panicMsg: "harness: bad step " + st}
+			}
+			seen := "pending"
+			if c := sr.calls[f[1]]; c != nil {
+				select {
+				case o := <-c.done:
+					c.done <- o
+					seen = "done"
+					if o.panicMsg != "" {
+						return abort(o)
+					}
+				case <-time.After(150 * time.Millisecond):
+				}
+			}
+			lastObserved = append(lastObserved, seen)
 		case "await":
 			want, err := unhexS(f[1])
 			if err != nil {
 				return outcome{panicMsg: "harness: bad step " + st}
 			}
-			if !sr.awaitOut(func(out string) bool { return strings.Contains(out, want) }) {
+			// "await:<hex>" = the text is on the wire; "await:<hex>:<n>" = at least n times (a
+			// second request of the same shape, e.g. a re-join)
+			times := 1
+			if len(f) > 2 {
+				if times, err = strconv.Atoi(f[2]); err != nil {
+					return outcome{panicMsg: "harness: bad step " + st}
+				}
+			}
+			if !sr.awaitOut(func(out string) bool { return strings.Count(out, want) >= times }) {
 				// a call that panicked explains the silence
 				for _, c := range sr.calls {
 					select {
@@ -669,6 +733,8 @@ func hx(s string) string { return hex.EncodeToString([]byte(s)) }
 
 func feed(s string) string  { return "feed:" + hx(s) }
 func await(s string) string { return "await:" + hx(s) }
+
+func awaitN(s string, n int) string { return "await:" + hx(s) + ":" + strconv.Itoa(n) }
 func auto(text, typ, payload string) string {
 	return "auto:" + replyto(text, typ, payload)[len("replyto:"):]
 }
@@ -855,6 +921,23 @@ func scenarioList() []scenario {
 		sc("muc-join-cancelled-then-presence", "call:mucjoin", await(`to="room@conf.example/nick"`), "cancel:mucjoin", "wait:mucjoin", feed(mucPresence("room@conf.example/nick", "", true)), feed(mucPresence("room@conf.example/nick", "unavailable", true))),
 		sc("muc-join-error-presence", "call:mucjoin", await(`to="room@conf.example/nick"`), feed(`<presence xmlns="jabber:client" from="room@conf.example/nick" type="error">`+errPayload+`</presence>`), "probe", "cancel:mucjoin", "wait:mucjoin"),
 	)
+	// --- muc: calls on a joined room (change of nickname, re-join, leave) x presences of the
+	// nickname held, the nickname asked for, and other occupants ------------------------------
+	joined := []string{"call:mucjoin", await(`to="room@conf.example/nick"`), feed(mucPresence("room@conf.example/nick", "", true)), "wait:mucjoin"}
+	withJoined := func(name string, steps ...string) scenario {
+		return sc(name, append(append([]string(nil), joined...), steps...)...)
+	}
+	l = append(l,
+		withJoined("muc-renick-confirmed", "call:mucrenick.nick2", await(`to="room@conf.example/nick2"`), feed(mucPresence("room@conf.example/nick", "unavailable", true)), feed(mucPresence("room@conf.example/nick2", "", true)), "wait:mucrenick.nick2", "call:mucstate", "wait:mucstate"),
+		withJoined("muc-renick-old-nick-presence-first", "call:mucrenick.nick2", await(`to="room@conf.example/nick2"`), feed(mucPresence("room@conf.example/nick", "", true)), "probe", "call:mucstate", "wait:mucstate", feed(mucPresence("room@conf.example/nick2", "", true)), "wait:mucrenick.nick2"),
+		withJoined("muc-renick-refused", "call:mucrenick.nick2", await(`to="room@conf.example/nick2"`), feed(`<presence xmlns="jabber:client" from="room@conf.example/nick2" type="error">`+errPayload+`</presence>`), feed(mucPresence("room@conf.example/nick", "", true)), "probe", "cancel:mucrenick.nick2", "wait:mucrenick.nick2", feed(mucPresence("room@conf.example/nick2", "", true))),
+		withJoined("muc-renick-cancelled-then-presences", "call:mucrenick.nick2", await(`to="room@conf.example/nick2"`), "cancel:mucrenick.nick2", "wait:mucrenick.nick2", feed(mucPresence("room@conf.example/nick", "", true)), feed(mucPresence("room@conf.example/nick2", "", true)), feed(mucPresence("room@conf.example/nick", "", true))),
+		withJoined("muc-renick-twice", "call:mucrenick.nick2", await(`to="room@conf.example/nick2"`), feed(mucPresence("room@conf.example/nick2", "", true)), "wait:mucrenick.nick2", "call:mucrenick.nick3", await(`to="room@conf.example/nick3"`), feed(mucPresence("room@conf.example/nick", "", true)), feed(mucPresence("room@conf.example/nick2", "", true)), "probe", feed(mucPresence("room@conf.example/nick3", "", true)), "wait:mucrenick.nick3"),
+		withJoined("muc-rejoin-same-nick", "call:mucrenick", awaitN(`to="room@conf.example/nick"`, 2), feed(mucPresence("room@conf.example/other", "", false)), feed(mucPresence("room@conf.example/nick", "", true)), "wait:mucrenick", feed(mucPresence("room@conf.example/nick", "", true))),
+		withJoined("muc-leave-confirmed", "call:mucleave", await(`type="unavailable"`), feed(mucPresence("room@conf.example/nick", "", true)), feed(mucPresence("room@conf.example/nick", "unavailable", true)), "wait:mucleave", "call:mucstate", "wait:mucstate", feed(mucPresence("room@conf.example/nick", "", true))),
+		withJoined("muc-leave-then-rejoin", "call:mucleave", await(`type="unavailable"`), feed(mucPresence("room@conf.example/nick", "unavailable", true)), "wait:mucleave", "call:mucrenick", awaitN(`to="room@conf.example/nick"`, 3), feed(mucPresence("room@conf.example/nick", "", true)), "wait:mucrenick"),
+		withJoined("muc-leave-cancelled", "call:mucleave", await(`type="unavailable"`), "cancel:mucleave", "wait:mucleave", feed(mucPresence("room@conf.example/nick", "unavailable", true)), feed(mucPresence("room@conf.example/nick", "unavailable", true))),
+	)
 	// --- history -----------------------------------------------------------------------------
 	l = append(l,
 		sc("history-unknown-query-id", feed(mamResult("nope")), feed(mamResult("")), feed(mamResult("nope"))),
@@ -880,6 +963,24 @@ func scenarioList() []scenario {
 		steps := append([]string{"call:ibbaccept", feed(ibbOpen("i1", "s1")), "wait:ibbaccept", "holdwrites", "call:ibbwrite.in", "awaitblocked"}, quiet...)
 		steps = append(steps, feed(ibbDataMsg("s1", 0)), feed(plain), "releasewrites", auto("<data", "result", ""), "wait:ibbwrite.in")
 		l = append(l, sc("hold-writes-during-ibbwrite", steps...))
+	}
+	// --- the peer answers (or guesses the id of) a request that is still being transmitted, then
+	// the requester gives up without ever receiving: its write fails, or its context ends.  The
+	// serve loop has looked the request up and offers the response to a party that never takes
+	// it; it must be released by the requester's departure ----------------------------------
+	for _, x := range [][3]string{{"uiq", "q1", versionPayload}, {"roster", "q2", rosterPayload}, {"pubsub", "q3", pubsubPayload}, {"cmd", "q4", itemsPayload}, {"disco", "q5", itemsPayload}, {"cmdexec", "q6", commandPayload}} {
+		for _, typ := range []string{"result", "error"} {
+			payload := x[2]
+			if typ == "error" {
+				payload = errPayload
+			}
+			l = append(l,
+				scNoProbe("early-"+typ+"-then-write-fails-"+x[0], "holdwrites", "call:"+x[0], "awaitblocked", feed(iq(typ, x[1], payload)), "failwrites", "releasewrites", "wait:"+x[0],
+					feed(iq("get", "p2", `<ping xmlns="urn:xmpp:ping"/>`)), feed(plain)),
+				sc("early-"+typ+"-then-cancelled-"+x[0], "holdwrites", "call:"+x[0], "awaitblocked", feed(iq(typ, x[1], payload)), "cancel:"+x[0], "releasewrites", "wait:"+x[0],
+					feed(iq(typ, x[1], payload))),
+			)
+		}
 	}
 	// --- late stanzas: after every scenario above, result / error stanzas of every kind that reuse
 	// the ids of the requests the session has sent --------------------------------------------
@@ -917,6 +1018,7 @@ func pendingMatrix() []scenario {
 	outStream := []string{"call:ibbopen", await(`id="o1"`), feed(iq("result", "o1", "")), "wait:ibbopen"}
 	errAnswer := func(text string) []string { return []string{replyto(text, "error", errPayload)} }
 	okAnswer := func(text string) []string { return []string{auto(text, "result", "")} }
+	mucJoined := []string{"call:mucjoin", await(`to="room@conf.example/nick"`), feed(mucPresence("room@conf.example/nick", "", true)), "wait:mucjoin"}
 	calls := []pcall{
 		{"uiq", nil, "uiq", `id="q1"`, errAnswer(`id="q1"`)},
 		{"roster", nil, "roster", `id="q2"`, []string{replyto(`id="q2"`, "result", rosterPayload)}},
@@ -928,6 +1030,11 @@ func pendingMatrix() []scenario {
 		{"ibbopen", nil, "ibbopen", `id="o1"`, errAnswer(`id="o1"`)},
 		{"mucjoin", nil, "mucjoin", `to="room@conf.example/nick"`, []string{feed(mucPresence("room@conf.example/nick", "", true))}},
 		{"hist", nil, "hist", "hq1", errAnswer("hq1")},
+		// calls on a room that is already joined: the handler's table holds state from the
+		// earlier stanzas (the nickname held) next to the request that is pending
+		{"mucrenick", mucJoined, "mucrenick.nick2", `to="room@conf.example/nick2"`, []string{feed(mucPresence("room@conf.example/nick2", "", true))}},
+		{"mucrejoin", mucJoined, "mucrenick", `to="room@conf.example/nick"`, []string{feed(mucPresence("room@conf.example/nick", "", true))}},
+		{"mucleave", mucJoined, "mucleave", `type="unavailable"`, []string{feed(mucPresence("room@conf.example/nick", "unavailable", true))}},
 		{"ibbflush-in", inStream, "ibbwrite.in", "<data", errAnswer("<data")},
 		{"ibbflush-in-acked", inStream, "ibbwrite.in", "<data", okAnswer("<data")},
 		{"ibbflush-out", outStream, "ibbwrite.out", "<data", errAnswer("<data")},
@@ -936,6 +1043,8 @@ func pendingMatrix() []scenario {
 		{"ibbclose-in", inStream, "ibbclose.in", "<close", errAnswer("<close")},
 		{"ibbclose-out", outStream, "ibbclose.out", "<close", []string{replyto("<close", "result", "")}},
 	}
+	// the request text of these calls is already on the wire once from their prelude
+	requestTimes := map[string]int{"mucrejoin": 2}
 	type pstanza struct{ name, xml string }
 	errMsg := func(id string) string {
 		return `<message xmlns="jabber:client" type="error" id="` + id + `" from="example.net">` + errPayload + `</message>`
@@ -955,6 +1064,9 @@ func pendingMatrix() []scenario {
 		{"muc-self", mucPresence("room@conf.example/nick", "", true)},
 		{"muc-unavailable", mucPresence("room@conf.example/nick", "unavailable", true)},
 		{"muc-error", `<presence xmlns="jabber:client" from="room@conf.example/nick" type="error">` + errPayload + `</presence>`},
+		{"muc-newnick", mucPresence("room@conf.example/nick2", "", true)},
+		{"muc-newnick-unavailable", mucPresence("room@conf.example/nick2", "unavailable", true)},
+		{"muc-occupant", mucPresence("room@conf.example/other", "", false)},
 		{"roster-push", iq("set", "rp1", `<query xmlns="jabber:iq:roster"><item jid="a@b"/></query>`)},
 		{"disco-info", iq("get", "di1", `<query xmlns="http://jabber.org/protocol/disco#info"/>`)},
 		{"version", iq("get", "v1", `<query xmlns="jabber:iq:version"/>`)},
@@ -964,7 +1076,11 @@ func pendingMatrix() []scenario {
 	for _, pc := range calls {
 		for _, ps := range stanzas {
 			steps := append([]string(nil), pc.prelude...)
-			steps = append(steps, "call:"+pc.call, await(pc.request), feed(ps.xml), "probe")
+			aw := await(pc.request)
+			if n := requestTimes[pc.name]; n > 1 {
+				aw = awaitN(pc.request, n)
+			}
+			steps = append(steps, "call:"+pc.call, aw, feed(ps.xml), "probe")
 			steps = append(steps, pc.answer...)
 			// twice: the peer may repeat itself once the answer is under way; the second probe
 			// makes sure Serve has consumed the answer before the call's context is cancelled (a
@@ -976,6 +1092,63 @@ func pendingMatrix() []scenario {
 		}
 	}
 	return l
+}
+
+// mucHandover: the join hand-over of muc's presence handler on its whole one-step domain (what
+// is in Channel.join when an available presence of the occupant JID that is held arrives:
+// nothing, a request for that JID, a request for another nickname), observed on the real code:
+// did the presence complete the pending call (handed) or not (forward)?  The probe behind the
+// presence makes sure the handler has returned.  Model/MucHandover.lean predicts the outcome.
+//
+//	muchand none|same|other  ->  handed | forward | STALL | PANIC
+func (c *ctx) mucHandover() {
+	joined := []string{"call:mucjoin", await(`to="room@conf.example/nick"`), feed(mucPresence("room@conf.example/nick", "", true)), "wait:mucjoin"}
+	self := feed(mucPresence("room@conf.example/nick", "", true))
+	for _, q := range []string{"none", "same", "other"} {
+		steps := append([]string(nil), joined...)
+		call := ""
+		switch q {
+		case "same":
+			call = "mucrenick"
+			steps = append(steps, "call:"+call, awaitN(`to="room@conf.example/nick"`, 2))
+		case "other":
+			call = "mucrenick.nick2"
+			steps = append(steps, "call:"+call, await(`to="room@conf.example/nick2"`))
+		}
+		steps = append(steps, self, "probe")
+		if call != "" {
+			steps = append(steps, "observe:"+call, "cancel:"+call, "wait:"+call)
+		}
+		steps = append(steps, "probe", "end")
+		line := "muchand " + q
+		if !c.begin(line) {
+			continue
+		}
+		var seen []string
+		o := retryStalled(func() outcome {
+			oo := runScenario(steps)
+			seen = append([]string(nil), lastObserved...)
+			return oo
+		})
+		obs := o.obs()
+		if obs == "ok" {
+			obs = "forward"
+			if len(seen) > 0 && seen[0] == "done" {
+				obs = "handed"
+			}
+		}
+		r := rec{Lines: [][2]string{{line, obs}}, Canon: line, Class: "muc-handover"}
+		switch {
+		case o.panicMsg != "":
+			fn, file, ln := panicLocation(o.stack, c.repo)
+			r.Fail = &recFail{Clause: "no-panic", Key: "panic:" + fn, Lines: []string{c.r.Prop + " " + line},
+				Detail: fmt.Sprintf("panic %q at %s:%d in %s", o.panicMsg, file, ln, fn)}
+		case o.stalled:
+			r.Fail = &recFail{Clause: "no-wedge", Key: "stall:muchand:" + q, Lines: []string{c.r.Prop + " " + line},
+				Detail: "still running after " + wd().String() + ": " + o.where}
+		}
+		c.emit(r)
+	}
 }
 
 func (c *ctx) scen(s scenario, class string) {
@@ -1006,6 +1179,9 @@ func (c *ctx) scenarios(pendingOnly bool) {
 	list := scenarioList()
 	matrix := pendingMatrix()
 	if !pendingOnly {
+		if os.Getenv("C09_SCEN") == "" {
+			c.mucHandover()
+		}
 		for _, s := range list {
 			if only := os.Getenv("C09_SCEN"); only != "" && only != s.name {
 				continue
@@ -1031,7 +1207,13 @@ func (c *ctx) scenarios(pendingOnly bool) {
 		if rnd.Intn(4) == 0 {
 			base = pick(rnd, matrix)
 		}
-		if strings.HasPrefix(base.name, "hold-writes") {
+		held := false
+		for _, st := range base.steps {
+			if st == "holdwrites" {
+				held = true
+			}
+		}
+		if held {
 			// with the peer not reading, any inserted stanza whose handler answers would block by
 			// design: these scripts are not varied
 			continue
